@@ -695,6 +695,22 @@ PINNED_F02B = """:: Start
 """
 
 
+# regression witness for the fixed defect F10d (/repo 310398c): the minimal story of the patch header.  After the
+# join choice the choice 'Cond' of the @if block of the next section must be offered (and lead to End).
+PINNED_F10D = """:: Start
+Intro
++ [A] -> @join
+@join
+Middle
+@if True:
+    + [Cond] -> End
+@endif
+
+:: End
+end
+"""
+
+
 def run_engine_property(pid: str, tier: str, seed: int, design_note: str) -> int:
     chk = C.Check(pid, tier, seed, "proof")
     props = C.coq_gate(chk)
@@ -718,6 +734,21 @@ def run_engine_property(pid: str, tier: str, seed: int, design_note: str) -> int
             chk.report("hook-writes-var-read-by-choice-condition",
                        "a turn_end hook changed a variable after the choices were filtered: a stale choice is offered",
                        {"story": PINNED_F02B, "ops": [("choose", 0)]})
+
+    # pinned regression witness for F10d (fixed): silent as long as the block choice of the next section is offered
+    if pid == "C10":
+        story = R.compile_story(PINNED_F10D)
+        recs, _ = R.run_history(story, [("choose", 0), ("choose", 0)])
+        v1 = recs[1]["view"] if len(recs) > 1 else None
+        v2 = recs[2]["view"] if len(recs) > 2 else None
+        offered = [c[0] for c in v1["choices"]] if v1 else None
+        if offered != ["Cond"] or not v2 or v2["pid"] != "End":
+            chk.report("join-section-block-choice-not-offered",
+                       "after a '-> @join' choice the choice written inside an @if block of the next section is not "
+                       f"offered (choices after choose(0): {offered!r}, expected ['Cond'], then End)",
+                       {"story": PINNED_F10D, "ops": [("choose", 0), ("choose", 0)],
+                        "obs": [x["obs"] for x in recs[1:]]})
+        stats["pinned_f10d_offered"] = offered
 
     if pid == "C07":
         stats["call_shapes"] = call_shape_phase(chk, rng, 150 if tier == "quick" else 1500)
@@ -792,6 +823,11 @@ def run_engine_property(pid: str, tier: str, seed: int, design_note: str) -> int
                 mech("hook fired"); nontrivial = nontrivial or pid == "C09"
             if rc["view"]["join"].get(rc["view"]["pid"], 0) >= 1:
                 mech("join section >= 1"); nontrivial = nontrivial or pid == "C10"
+                if any(c[0].startswith(("In block", "Loop pick")) for c in rc["view"]["choices"]):
+                    mech("block choice offered in join section >= 1")
+                    if (rc["op"][0].startswith("choose") and rc["before"]["pid"] == rc["view"]["pid"]
+                            and rc["before"]["join"].get(rc["view"]["pid"], 0) < rc["view"]["join"][rc["view"]["pid"]]):
+                        mech("block choice offered by the join turn itself")
             if rc["obs"][0] == "exc" and rc["obs"][1] != "IndexError":
                 mech("fault surfaced"); nontrivial = nontrivial or pid == "C15"
             if rc["op"][0] == "undo" and rc["obs"] == ("bool", True):
